@@ -63,7 +63,12 @@ func c18Gen(class string, seed uint64, tier string) *vfScenario {
 		if rng.IntN(3) == 0 {
 			depth = 250 + rng.IntN(90) // beyond 256 as well: nothing bounds the queue of replies waiting for an earlier one
 		}
+		reads := rng.IntN(2) == 0 // the requests behind it: STATs, or STATs and READs of other parts of the file
 		for i, n := 0, depth; i < n; i++ {
+			if reads && i%3 != 0 {
+				sc.Ops = append(sc.Ops, vfOp{K: "read", H: 0, Off: int64((i * 7) % 90), N: 3 + i%9})
+				continue
+			}
 			sc.Ops = append(sc.Ops, vfOp{K: "stat", P: name})
 		}
 		sc.Cfg["holdread"] = int64(len(sc.Ops) - 4 - rng.IntN(12)) // how many of them are handled before the READ may go on
